@@ -15,7 +15,8 @@ ltv == <<i, owner, once, regd, seen>>
 \* regd: a register_tags call has returned; seen[t]: regd when thread t's current call began.
 \* A formatting call that begins after a registration has completed must show the registered
 \* names ("end_post"); "end_pre" (the text of the unregistered state) is a stale view;
-\* "end_other" is a text the call never returns when run alone.
+\* "end_other" is a text the call never returns when run alone.  "tags_lost": a registration made by
+\* one thread was overwritten by another (a read-modify-write of the context that is not atomic).
 MaxThread == 64
 LocksOf == {"FC", "KV", "FN", "PARAM", "TAGS"}
 Cells  == {"FC", "KV", "FN", "PARAM"}
@@ -42,6 +43,9 @@ LTNext ==
        [] k = "end_pre" -> ~seen[t] /\ UNCHANGED <<owner, once, regd, seen>>
        [] k \in {"end_post", "end_any"} -> UNCHANGED <<owner, once, regd, seen>>
        [] k = "end_other" -> FALSE
+       \* after all threads have finished: what applications registered in the context is still there
+       [] k = "tags_kept" -> UNCHANGED <<owner, once, regd, seen>>
+       [] k = "tags_lost" -> FALSE
 LTSpec == LTInit /\ [][LTNext]_ltv
 LTAccepted ==
   LET d == TLCGet("stats").diameter IN
